@@ -1,14 +1,20 @@
-(* C08 — property theorems only. *)
+(* C08 — property theorems only.  Model: theories/C07/Model.v (shared with C07).
+   Single-context theorems are about [node_step]/[node_run] for EVERY input sequence.  Two-context
+   theorems are about [step2]/[run2]: two complete SignalManagers A and B (each publishes and
+   subscribes), one connection at a time, FIFO channels, each end closes on its own; [reach2] = reachable
+   by ANY finite sequence of labels (API calls of any thread of either context at handler granularity,
+   deliveries, connects, closes at any position) in which object names are valid names.
+   Lk n c p s = _local_subscriptions["c.p.s"] of n, Rk n x p s = (x in _remote_subscriptions["p.s"] of n),
+   up s sd = side sd considers the connection open. *)
 From Coq Require Import List NArith ZArith Bool.
-Require Import QV.C07.Model QV.C07.ProofsLib QV.C08.Proofs.
+Require Import QV.C07.Model QV.C07.ProofsLib QV.C08.Proofs QV.C08.Effects QV.C08.Proofs2 QV.C08.ProofsWait.
 Import ListNotations.
 Open Scope N_scope.
 
-(* Single node, EVERY input sequence (API calls and arbitrary messages / error replies / peer
-   events, even from misbehaving peers): the four tables are dictionaries; the two pending tables
-   describe the same set of requests (one request id per pending object, registered under its own
-   full signal name); no empty set is stored; a signal that has local subscribers has no pending
-   request. *)
+(* Single node, EVERY input sequence (API calls and arbitrary messages / error replies / peer events,
+   even from a misbehaving peer): the four tables are dictionaries; the two pending tables describe the
+   same set of requests (one request id per pending object, registered under its own full signal name);
+   no empty set is stored; a signal that has local subscribers has no pending request. *)
 Theorem C08_tables_consistent : forall nm objs ins n os,
   nodot nm = true -> node_run (init_node nm objs) ins = Some (n, os) ->
   (NoDup (map fst (n_lsubs n)) /\ NoDup (map fst (n_rsubs n)) /\ NoDup (map fst (n_pid n)) /\ NoDup (map fst (n_pname n))) /\
@@ -22,3 +28,136 @@ Theorem C08_tables_consistent : forall nm objs ins n os,
   (forall key l, In (key, l) (n_lsubs n) -> forall q, ~ In (key, q) (n_pname n)).
 Proof. exact tables_consistent. Qed.
 Print Assumptions C08_tables_consistent.
+
+(* MAIN.  In every reachable state of the two-context system in which nothing is in flight, side sd has
+   no request outstanding and both ends agree on whether the connection is open: the other side lists sd
+   as remote subscriber of its signal p.sg  <->  sd has a (non-empty: C08_tables_consistent) set of local
+   receivers for it.  Hence (C07_snapshot of _remote_subscriptions) a signal is transmitted to a peer
+   exactly when some receiver there is subscribed.  Holds for both directions (sd = true / false). *)
+Theorem C08_quiescent : forall a b oa ob s sd p sg,
+  nodot a = true -> nodot b = true -> a <> b -> reach2 a b oa ob s ->
+  ch s true = [] -> ch s false = [] -> n_pid (nd s sd) = [] ->
+  up s sd = up s (negb sd) ->
+  nodot p = true ->
+  (Rk (nd s (negb sd)) (n_name (nd s sd)) p sg = true <->
+   Lk (nd s sd) (n_name (nd s (negb sd))) p sg <> None).
+Proof. exact quiescent. Qed.
+Print Assumptions C08_quiescent.
+
+(* the invariant behind it holds in every reachable state, quiescent or not (per signal: no request in
+   flight / the request in flight / the reply in flight with what it will make true; "publisher removed"
+   notices in flight; requests tracked by the connection) *)
+Theorem C08_invariant : forall a b oa ob s,
+  nodot a = true -> nodot b = true -> a <> b -> reach2 a b oa ob s -> SInv2 s.
+Proof. exact reach2_SInv2. Qed.
+Print Assumptions C08_invariant.
+
+(* a reply read by a context always answers one of its pending requests (no KeyError in
+   _handle_subscription_reply), and every pending request is tracked by the connection, so closing
+   produces an error reply for it *)
+Theorem C08_reply_known : forall a b oa ob s sd id ok,
+  nodot a = true -> nodot b = true -> a <> b -> reach2 a b oa ob s ->
+  up s sd = true -> In (MSubReply id ok) (ch s (negb sd)) ->
+  exists key q, alookup N.eqb id (n_pid (nd s sd)) = Some key /\ alookup str_eqb key (n_pname (nd s sd)) = Some q.
+Proof. exact reply_known. Qed.
+Print Assumptions C08_reply_known.
+
+(* unknown publisher: the publisher's side answers "failed" and its tables are unchanged ... *)
+Theorem C08_unknown_publisher_remote : forall n from id p s,
+  smem str_eqb p (n_objs n) = false ->
+  let r := handle_sub_request n from id p s true in
+  fst r = n /\ snd r = send_to n from (MSubReply id false).
+Proof. intros n from id p s H. unfold handle_sub_request. rewrite H. simpl. auto. Qed.
+Print Assumptions C08_unknown_publisher_remote.
+
+(* ... the subscriber's side, on a failed reply, drops the request, stores nothing, and releases the
+   waiting calls with "failed" (= QMI_SignalSubscriptionException) *)
+Theorem C08_failed_reply : forall n id key q,
+  TInv n -> alookup N.eqb id (n_pid n) = Some key -> alookup str_eqb key (n_pname n) = Some q -> pq_sub q = true ->
+  let r := handle_reply n id false in
+  snd r = [] /\ alookup N.eqb id (n_pid (fst r)) = None /\ alookup str_eqb key (n_pname (fst r)) = None /\
+  alookup str_eqb key (n_lsubs (fst r)) = None /\
+  (forall key', key' <> key -> alookup str_eqb key' (n_lsubs (fst r)) = alookup str_eqb key' (n_lsubs n) /\
+                              alookup str_eqb key' (n_pname (fst r)) = alookup str_eqb key' (n_pname n)).
+Proof.
+  intros n id key q HT Hid Hq Hs r. pose proof (handle_reply_spec n id false key q HT Hid Hq) as H. cbv zeta in H. fold r in H.
+  rewrite Hs in H. destruct H as (_ & H2 & H3 & H4 & H5 & _ & H7). auto.
+Qed.
+Print Assumptions C08_failed_reply.
+
+Theorem C08_unknown_publisher_local : forall n call c p s r,
+  names_ok (resolve_ctx n c) p s = true -> resolve_ctx n c = n_name n -> smem str_eqb p (n_objs n) = false ->
+  node_step n (ISub call c p s r) = Some (n, [ORes RSubErr]).
+Proof.
+  intros n call c p s r Hok Hc Ho. simpl. rewrite Hok, Hc. simpl. rewrite (proj2 (str_eqb_spec _ _) eq_refl).
+  unfold sub_local. rewrite Ho. reflexivity.
+Qed.
+Print Assumptions C08_unknown_publisher_local.
+
+(* cleanup, peer loss: an end that has closed has no request outstanding, no local subscription on the
+   peer's signals, does not list the peer as remote subscriber, and the connection tracks nothing *)
+Theorem C08_cleanup_peer : forall a b oa ob s sd,
+  nodot a = true -> nodot b = true -> a <> b -> reach2 a b oa ob s -> up s sd = false ->
+  (forall id, alookup N.eqb id (n_pid (nd s sd)) = None) /\
+  (forall p sg, Lk (nd s sd) (n_name (nd s (negb sd))) p sg = None) /\
+  (forall p sg, Rk (nd s sd) (n_name (nd s (negb sd))) p sg = false) /\
+  cp s sd = [].
+Proof. exact closed_end_clean. Qed.
+Print Assumptions C08_cleanup_peer.
+
+(* cleanup, publisher removal: the publisher's side forgets every remote subscriber of the object's
+   signals, tells each of them (if reachable), and drops the local subscriptions on the object;
+   C08_quiescent then gives: once the notices are delivered nobody at the other end is subscribed *)
+Theorem C08_cleanup_object : forall n o,
+  let r := object_removed (w_objs (sdel str_eqb o (n_objs n)) n) o in
+  (forall x p s, nodot o = true -> nodot p = true -> Rk (fst r) x p s = (if str_eqb o p then false else Rk n x p s)) /\
+  (forall x s, nodot o = true -> Rk n x o s = true -> can_send n x = true -> In (MRemoved o s) (msgs_of (snd r))) /\
+  (forall m, In m (msgs_of (snd r)) -> exists s', m = MRemoved o s').
+Proof. intros n o r. destruct (object_removed_spec n o) as (_ & _ & _ & _ & _ & H6 & _ & _ & H9 & H10). auto. Qed.
+Print Assumptions C08_cleanup_object.
+
+(* no subscribe call blocks forever: a call blocked in wait() stays accounted for (blocked on a
+   registered request, or its outcome is ready) through every step, including the loss of the peer; when
+   nothing is in flight no request is registered any more, so the outcome is there and wait() returns *)
+Theorem C08_no_block : forall a b oa ob ls1 ls2 s1 s2 sd call,
+  nodot a = true -> nodot b = true -> a <> b ->
+  run2 (init2 a b oa ob) ls1 = Some s1 -> run2 s1 ls2 = Some s2 ->
+  Forall label2_ok ls1 -> Forall label2_ok ls2 ->
+  waiting (nd s1 sd) call -> ~ In (L2Node sd (ISubEnd call)) ls2 ->
+  waiting (nd s2 sd) call /\
+  (ch s2 true = [] -> ch s2 false = [] ->
+   exists (ok : bool) n' os, node_step (nd s2 sd) (ISubEnd call) = Some (n', os) /\ os = [ORes (if ok then RNone else RSubErr)]).
+Proof. exact no_block. Qed.
+Print Assumptions C08_no_block.
+
+(* ... and a subscribe call that returns "blocked" is waiting in that sense *)
+Theorem C08_blocked_is_waiting : forall n call c p s r n' os,
+  WV n -> node_step n (ISub call c p s r) = Some (n', os) -> In (ORes RWait) os -> waiting n' call.
+Proof. intros n call c p s r n' os HW H Hin. destruct (step_WP _ _ _ _ H HW) as (_ & _ & H3). eapply H3; eauto. Qed.
+Print Assumptions C08_blocked_is_waiting.
+
+(* with nothing in flight no request is outstanding at either end *)
+Theorem C08_empty_channels_no_pending : forall a b oa ob s sd,
+  nodot a = true -> nodot b = true -> a <> b -> reach2 a b oa ob s ->
+  ch s true = [] -> ch s false = [] -> forall id, alookup N.eqb id (n_pid (nd s sd)) = None.
+Proof. exact empty_channels_no_pending. Qed.
+Print Assumptions C08_empty_channels_no_pending.
+
+(* non-vacuity: subscribe, reply, second receiver, unsubscribe both, re-subscribe while the unsubscribe is
+   pending, publisher removed, everything delivered: a quiescent reachable state with the equivalence on
+   both sides false; and an intermediate quiescent state where it is true on both sides *)
+Example C08_example :
+  let a := [110] in let b := [109] in let p := [112] in let sg := [115] in
+  let ls1 := [L2Connect; L2Node true (ISub 1 b p sg 1); L2Deliver true; L2Deliver false; L2Node true (ISubEnd 1)] in
+  let ls2 := [L2Node true (ISub 2 b p sg 2); L2Node true (IUnsub b p sg 1); L2Node true (IUnsub b p sg 2);
+              L2Node true (ISub 3 b p sg 3); L2Deliver true; L2Deliver false; L2Node false (IObjRemove p);
+              L2Deliver true; L2Deliver false; L2Node true (ISubEnd 3)] in
+  (exists s, run2 (init2 a b [] [p]) ls1 = Some s /\ Forall label2_ok ls1 /\ ch s true = [] /\ ch s false = [] /\
+             n_pid (nd s true) = [] /\ up s true = up s false /\ Rk (nd s false) a p sg = true /\ Lk (nd s true) b p sg = Some [1]) /\
+  (exists s, run2 (init2 a b [] [p]) (ls1 ++ ls2) = Some s /\ ch s true = [] /\ ch s false = [] /\
+             n_pid (nd s true) = [] /\ Rk (nd s false) a p sg = false /\ Lk (nd s true) b p sg = None).
+Proof.
+  split.
+  - eexists. split; [vm_compute; reflexivity|]. split; [repeat constructor|]. vm_compute. repeat split.
+  - eexists. split; [vm_compute; reflexivity|]. vm_compute. repeat split.
+Qed.
